@@ -64,7 +64,7 @@ var purePkgs = map[string]bool{
 	"time": true, "reflect": true, "unicode": true, "unicode/utf8": true, "regexp": true, "bytes": true, "path": true, "path/filepath": true,
 	"k8s.io/apimachinery/pkg/api/errors":  true,
 	"k8s.io/apimachinery/pkg/util/intstr": true, "k8s.io/utils/integer": true, "k8s.io/utils/pointer": true,
-	"k8s.io/apimachinery/pkg/labels": true, "k8s.io/apimachinery/pkg/api/equality": true,
+	"k8s.io/apimachinery/pkg/labels": true, "k8s.io/apimachinery/pkg/api/equality": true, "k8s.io/apimachinery/third_party/forked/golang/reflect": true, "k8s.io/apimachinery/pkg/conversion": true,
 	"k8s.io/apimachinery/pkg/util/validation/field": true, "k8s.io/apimachinery/pkg/util/validation": true,
 	"k8s.io/apimachinery/pkg/types": true, "k8s.io/apimachinery/pkg/runtime/schema": true,
 	"k8s.io/apimachinery/pkg/util/rand": true, "k8s.io/apimachinery/pkg/util/sets": true,
@@ -215,9 +215,18 @@ func (g *Gen) trackName(c *ssa.CallCommon) string {
 		if n, ok := g.tracked[k]; ok {
 			return n
 		}
-		// by method name on well-known interfaces
-		if n, ok := g.tracked["*."+c.Method.Name()]; ok {
-			_ = n
+		// API writes through the controller-runtime client are always logged
+		if c.Method.Pkg() != nil && strings.HasSuffix(c.Method.Pkg().Path(), "controller-runtime/pkg/client") {
+			switch c.Method.Name() {
+			case "Create", "Update", "Patch", "Delete", "DeleteAllOf":
+				rt := c.Value.Type().String()
+				if strings.HasSuffix(rt, "StatusWriter") || strings.HasSuffix(rt, "SubResourceWriter") {
+					return "Status" + c.Method.Name()
+				}
+				return c.Method.Name()
+			case "Get", "List":
+				return c.Method.Name()
+			}
 		}
 		return ""
 	}
@@ -274,7 +283,7 @@ func (g *Gen) storeFrame(fn *ssa.Function, addr ssa.Value, t types.Type, fr *Fra
 }
 
 // instrFrame: frame of a single instruction (using current inferred frames of callees).
-func (g *Gen) instrFrame(fn *ssa.Function, in ssa.Instruction) *Frame {
+func (g *Gen) instrFrame(fn *ssa.Function, in ssa.Instruction, forCallers bool) *Frame {
 	fr := newFrame()
 	switch x := in.(type) {
 	case *ssa.Store:
@@ -291,12 +300,12 @@ func (g *Gen) instrFrame(fn *ssa.Function, in ssa.Instruction) *Frame {
 		h, v, l := fc.mapArrays(mt)
 		fr.arrs[h], fr.arrs[v], fr.arrs[l] = true, true, true
 	case ssa.CallInstruction:
-		fr.union(g.callFrame(x.Common()))
+		fr.union(g.callFrame(x.Common(), forCallers))
 	}
 	return fr
 }
 
-func (g *Gen) callFrame(c *ssa.CallCommon) *Frame {
+func (g *Gen) callFrame(c *ssa.CallCommon, forCallers bool) *Frame {
 	fr := newFrame()
 	if c.IsInvoke() {
 		k := ifaceMethodKey(c.Value.Type(), c.Method)
@@ -314,7 +323,7 @@ func (g *Gen) callFrame(c *ssa.CallCommon) *Frame {
 					for _, f := range impls {
 						sub := newFrame()
 						sub.union(g.funcFrame(f))
-						g.resolveDeps(sub, f, c.Args, true)
+						g.resolveDeps(sub, f, c.Args, true, forCallers)
 						fr.union(sub)
 					}
 					if fr.callsParam {
@@ -331,7 +340,7 @@ func (g *Gen) callFrame(c *ssa.CallCommon) *Frame {
 			fr.top = true
 			return fr
 		}
-		fr.union(g.argsReach(c.Args, nil))
+		fr.union(g.argsReach(c.Args, nil, forCallers))
 		return fr
 	}
 	switch v := c.Value.(type) {
@@ -354,6 +363,16 @@ func (g *Gen) callFrame(c *ssa.CallCommon) *Frame {
 		}
 		return fr
 	case *ssa.Function:
+		if len(v.Blocks) == 0 && (v.String() == "sort.Sort" || v.String() == "sort.Stable") && len(c.Args) == 1 {
+			if mi, ok := c.Args[0].(*ssa.MakeInterface); ok {
+				if stt, ok := mi.X.Type().Underlying().(*types.Slice); ok && !isStructLike(stt.Elem()) {
+					if !(forCallers && g.isFreshValue(mi.X, 0)) {
+						fr.arrs[g.regArr(g.ti.cellArray(stt.Elem()), g.ti.sortOf(stt.Elem()))] = true
+					}
+					return fr
+				}
+			}
+		}
 		if len(v.Blocks) == 0 {
 			if isPureExternal(v) || g.trusted[v.String()] != nil && g.trusted[v.String()].pure {
 				return fr
@@ -361,10 +380,15 @@ func (g *Gen) callFrame(c *ssa.CallCommon) *Frame {
 			if con := g.contracts[g.fnName(v)]; con != nil && con.Modifies != nil {
 				return con.frame(g)
 			}
-			return g.argsReach(c.Args, nil)
+			return g.argsReach(c.Args, nil, forCallers)
 		}
 		fr.union(g.funcFrame(v))
-		g.resolveDeps(fr, v, c.Args, false)
+		if con := g.contracts[g.fnName(v)]; con != nil {
+			for _, ef := range con.Effects {
+				fr.facts[ef.Var] = true
+			}
+		}
+		g.resolveDeps(fr, v, c.Args, false, forCallers)
 		if fr.callsParam {
 			fr.callsParam = false
 			for _, a := range c.Args {
@@ -453,7 +477,7 @@ func (g *Gen) computeFrame(fn *ssa.Function) bool {
 	for _, b := range fn.Blocks {
 		for _, in := range b.Instrs {
 			wasTop := fr.top
-			if fr.union(g.instrFrame(fn, in)) {
+			if fr.union(g.instrFrame(fn, in, true)) {
 				changed = true
 			}
 			if fr.top && !wasTop {
@@ -528,6 +552,7 @@ func (fc *FnCtx) execCall(st *State, in ssa.Instruction, c *ssa.CallCommon, resT
 	track := g.trackName(c)
 	var res Val
 	handled := false
+	preSt := st.clone()
 	var callee *ssa.Function
 	var con *Contract
 	var key string
@@ -556,6 +581,12 @@ func (fc *FnCtx) execCall(st *State, in ssa.Instruction, c *ssa.CallCommon, resT
 					handled = true
 				}
 			}
+			if !handled && callee.Name() == "DeepCopy" && callee.Signature.Recv() != nil && g.contracts[key] == nil {
+				if r, ok := deepCopyRule(fc, st, in, c, args, resT); ok {
+					res = r
+					handled = true
+				}
+			}
 			if !handled && callee.Signature.Recv() != nil {
 				// method call on pointer receiver that is dereferenced: nil receiver is the callee's problem (its own safety), not checked here
 			}
@@ -575,7 +606,7 @@ func (fc *FnCtx) execCall(st *State, in ssa.Instruction, c *ssa.CallCommon, resT
 		// default: havoc frame, fresh results
 		var fr *Frame
 		if c.IsInvoke() || callee != nil {
-			fr = g.callFrame(c)
+			fr = g.callFrame(c, false)
 		} else {
 			fr = &Frame{top: true}
 			fc.abstract("call through function value")
@@ -586,10 +617,53 @@ func (fc *FnCtx) execCall(st *State, in ssa.Instruction, c *ssa.CallCommon, resT
 			fc.g.uncontracted[key] = true
 		}
 	}
+	if con != nil && len(con.Effects) > 0 {
+		saved := map[string]string{}
+		for _, ef := range con.Effects {
+			saved[ef.Var] = fc.gvarGet(preSt, ef.Var)
+		}
+		fc.applyEffects(st, preSt, c, callee, con, args, saved, res)
+	}
 	if track != "" {
 		fc.logCall(st, track, args, res)
 	}
 	return res
+}
+
+// applyEffects: ghost accumulator updates declared on the callee (evaluated over its parameters in the pre-call state).
+func (fc *FnCtx) applyEffects(st *State, pre *State, c *ssa.CallCommon, callee *ssa.Function, con *Contract, args []Val, saved map[string]string, res Val) {
+	if con == nil || len(con.Effects) == 0 {
+		return
+	}
+	names, ptypes := fc.g.paramNames(c, callee)
+	env := &Env{fc: fc, vars: map[string]Val{}, pre: pre, cur: pre, pkg: con.Pkg}
+	for i, n := range names {
+		if i < len(args) {
+			v := args[i]
+			v.Typ = ptypes[i]
+			env.vars[n] = v
+		}
+	}
+	if res.Tup != nil {
+		env.results = res.Tup
+	} else if res.T != "" || res.SV != nil {
+		env.results = []Val{res}
+	}
+	sig := c.Signature()
+	for i := range env.results {
+		if i < sig.Results().Len() {
+			env.results[i].Typ = sig.Results().At(i).Type()
+		}
+	}
+	for _, ef := range con.Effects {
+		v, err := fc.eval(env, ef.Expr)
+		if err != nil {
+			fc.err = fmt.Errorf("%s: effect %q: %v", fc.name, ef.Text, err)
+			return
+		}
+		old := saved[ef.Var]
+		st.ghost[ef.Var] = fmt.Sprintf("(+ %s %s)", old, v.T)
+	}
 }
 
 func calleeShort(c *ssa.CallCommon) string {
@@ -623,7 +697,13 @@ func (fc *FnCtx) applyFrame(st *State, fr *Frame) {
 		fc.q.assert(implies(st.reach, fmt.Sprintf("(>= %s %s)", na, st.alloc())))
 		st.allocB, st.allocK = na, 0
 	}
+	st.fixBounds()
 	for f := range fr.facts {
+		if strings.HasPrefix(f, "$") {
+			fc.gvarGet(st, f)
+			st.ghost[f] = fc.q.freshConst("gv_"+sanitize(f[1:]), sInt)
+			continue
+		}
 		k := "fact:" + f
 		fc.ghostSort[k] = sBool
 		if _, ok := fc.ghostInit[k]; !ok {
@@ -759,11 +839,15 @@ func (fc *FnCtx) applyContract(st *State, in ssa.Instruction, c *ssa.CallCommon,
 	if con.Modifies != nil || con.Pure {
 		fr = con.frame(g)
 	} else {
-		fr = g.callFrame(c)
+		fr = g.callFrame(c, false)
 	}
 	fc.applyFrame(st, fr)
 	res := fc.freshVal(st, resT, "ret_"+sanitize(calleeShort(c)))
 	post := &Env{fc: fc, vars: env.vars, pre: pre, cur: st, pkg: con.Pkg}
+	for a := range fc.g.closeDeps(fr).arrs {
+		post.frameArrs = append(post.frameArrs, a)
+	}
+	sort.Strings(post.frameArrs)
 	if res.Tup != nil {
 		post.results = res.Tup
 	} else if res.T != "" || res.SV != nil {
@@ -786,6 +870,20 @@ func (fc *FnCtx) applyContract(st *State, in ssa.Instruction, c *ssa.CallCommon,
 		if err != nil {
 			fc.err = fmt.Errorf("%s: call %s ensures %q: %v", fc.name, key, e.Text, err)
 			return res
+		}
+		if when, isFinding := fc.g.findingObls[key+"#post:"+e.Label]; isFinding {
+			// recorded as a known finding: refuted on the callee inside the region `when`;
+			// callers may only assume it outside that region (that part is proved by the callee's twin obligation)
+			we, err := parseExpr(when)
+			if err != nil {
+				continue
+			}
+			w, err := fc.evalBool(env, we)
+			if err != nil {
+				continue
+			}
+			fc.q.assert(implies(and(st.reach, not(w)), t))
+			continue
 		}
 		fc.q.assert(implies(st.reach, t))
 	}
@@ -860,7 +958,7 @@ func (fc *FnCtx) execBuiltin(st *State, in ssa.Instruction, b *ssa.Builtin, c *s
 		return fc.execAppend(st, in, c, args)
 	case "copy":
 		fc.abstract("builtin copy (destination contents havocked)")
-		fc.applyFrame(st, fc.g.callFrame(c))
+		fc.applyFrame(st, fc.g.callFrame(c, false))
 		return fc.freshVal(st, resT, "copy_n")
 	case "delete":
 		mt := c.Args[0].Type().Underlying().(*types.Map)
@@ -929,6 +1027,7 @@ func (fc *FnCtx) execAppend(st *State, in ssa.Instruction, c *ssa.CallCommon, ar
 	if e == "nilslice" {
 		total, n2 = n1, "0"
 	}
+	inPlaceCond := fmt.Sprintf("(<= %s (scap %s))", total, s)
 	var ls []Leaf
 	ti.leaves(et, 0, "", &ls)
 	seen := map[string]bool{}
@@ -939,20 +1038,27 @@ func (fc *FnCtx) execAppend(st *State, in ssa.Instruction, c *ssa.CallCommon, ar
 		seen[l.arr] = true
 		fc.g.regArr(l.arr, l.sort)
 		old := st.get(l.arr)
-		// lambda array: fresh block = copy of s's block followed by e's block
-		lam := fmt.Sprintf("(lambda ((ar Ref)) (ite (and (= (rbase ar) (rbase %s)) (<= 0 (roff ar))) (ite (< (roff ar) (* %s %d)) (select %s (mkref (rbase (sarr %s)) (+ (roff (sarr %s)) (roff ar)))) (select %s (mkref (rbase (sarr %s)) (+ (roff (sarr %s)) (- (roff ar) (* %s %d)))))) (select %s ar)))",
+		// lambda array, both Go behaviours:
+		//  in place  (len+k <= cap): the elements of e are written behind s in the same backing array;
+		//  realloc   (otherwise)   : fresh block = copy of s's block followed by e's block
+		inplace := fmt.Sprintf("(ite (and (= (rbase ar) (rbase (sarr %s))) (<= (+ (roff (sarr %s)) (* %s %d)) (roff ar)) (< (roff ar) (+ (roff (sarr %s)) (* %s %d)))) (select %s (mkref (rbase (sarr %s)) (+ (roff (sarr %s)) (- (roff ar) (+ (roff (sarr %s)) (* %s %d)))))) (select %s ar))",
+			s, s, n1, sz, s, total, sz, old, e, e, s, n1, sz, old)
+		fresh := fmt.Sprintf("(ite (and (= (rbase ar) (rbase %s)) (<= 0 (roff ar))) (ite (< (roff ar) (* %s %d)) (select %s (mkref (rbase (sarr %s)) (+ (roff (sarr %s)) (roff ar)))) (select %s (mkref (rbase (sarr %s)) (+ (roff (sarr %s)) (- (roff ar) (* %s %d)))))) (select %s ar))",
 			nb, n1, sz, old, s, s, old, e, e, n1, sz, old)
 		if e == "nilslice" {
-			lam = fmt.Sprintf("(lambda ((ar Ref)) (ite (and (= (rbase ar) (rbase %s)) (<= 0 (roff ar)) (< (roff ar) (* %s %d))) (select %s (mkref (rbase (sarr %s)) (+ (roff (sarr %s)) (roff ar)))) (select %s ar)))", nb, n1, sz, old, s, s, old)
+			inplace = fmt.Sprintf("(select %s ar)", old)
+			fresh = fmt.Sprintf("(ite (and (= (rbase ar) (rbase %s)) (<= 0 (roff ar)) (< (roff ar) (* %s %d))) (select %s (mkref (rbase (sarr %s)) (+ (roff (sarr %s)) (roff ar)))) (select %s ar))", nb, n1, sz, old, s, s, old)
 		}
+		lam := fmt.Sprintf("(lambda ((ar Ref)) (ite %s %s %s))", inPlaceCond, inplace, fresh)
 		nv := fc.q.freshConst(l.arr+"@app", fc.g.arrSort[l.arr])
 		fc.q.assert(implies(st.reach, eq(nv, lam)))
 		st.heap[l.arr] = nv
+		st.bounds[l.arr] = st.alloc()
 	}
 	fc.usesLambda()
 	cp := fc.q.freshConst("appcap", sInt)
 	fc.q.assert(implies(st.reach, fmt.Sprintf("(>= %s %s)", cp, total)))
-	res := fmt.Sprintf("(mkslice %s %s %s)", nb, total, cp)
+	res := ite(inPlaceCond, fmt.Sprintf("(mkslice (sarr %s) %s (scap %s))", s, total, s), fmt.Sprintf("(mkslice %s %s %s)", nb, total, cp))
 	// append(nil, nil...) stays nil
 	if e != "nilslice" {
 		res = ite(and(eq("(sarr "+s+")", "nilref"), eq(n2, "0")), "nilslice", res)
@@ -964,4 +1070,4 @@ func (fc *FnCtx) execAppend(st *State, in ssa.Instruction, c *ssa.CallCommon, ar
 	return Val{T: c2}
 }
 
-func (fc *FnCtx) usesLambda() { fc.abstracted["[info] uses z3 lambda arrays (append model: result always in a fresh backing array)"] = true }
+func (fc *FnCtx) usesLambda() { fc.abstracted["[info] uses z3 lambda arrays (append/sort)"] = true }
